@@ -246,8 +246,9 @@ def register_enums():
     register_enum("ParseError", ["VariantNotFound"])
 
 
-def run_fn(funcs, name, args, pre=(), stubs=None, unwind=8, timeout_s=120):
+def run_fn(funcs, name, args, pre=(), stubs=None, unwind=8, timeout_s=120, opaque_sinks=False):
     I = Interp(funcs, stubs=stubs or {}, unwind=unwind, timeout_s=timeout_s)
+    I.opaque_sinks = opaque_sinks
     exits = I.run(name, args, pre)
     return I, exits
 
